@@ -617,6 +617,62 @@ func driveAllocExtra(s *shardSet, rng *rand.Rand) {
 		}(g)
 	}
 	wg.Wait()
+	allocBurst(s)
+}
+
+// allocBurst: several goroutines allocate thousands of small buffers of one element type in a tight loop (no logging
+// in between). What each buffer showed right after Alloc and what it shows at the end (after everybody stamped
+// their own buffers) is kept and written afterwards as one tiny trace per buffer: Alloc (must be zero, right shape),
+// Write of the owner's stamps (nobody else's may be there).
+func allocBurst(s *shardSet) {
+	type rec struct {
+		c, k  int
+		v     View
+		atAl  ViewObs
+		stamp []int64
+	}
+	const G, N = 8, 1500
+	recs := make([][]rec, G)
+	var wg sync.WaitGroup
+	start := make(chan struct{})
+	for g := 0; g < G; g++ {
+		wg.Add(1)
+		go func(g int) {
+			defer wg.Done()
+			r := rand.New(rand.NewSource(int64(g) + 991))
+			out := make([]rec, 0, N)
+			<-start
+			for i := 0; i < N; i++ {
+				c := 1 + r.Intn(4)
+				k := 1 + r.Intn(64/c)
+				v := NewView("int32", allocator(c, k, k))
+				data, _ := v.Data()
+				in := make([]int64, c*k)
+				for j := range in {
+					in[j] = int64(1 + (g*13+i+j)%100)
+				}
+				v.Write("int32", in)
+				out = append(out, rec{c, k, v, ViewObs{Len: v.Len(), Cap: v.Cap(), Length: v.Length(), Capacity: v.Capacity(), Ch: v.Channels(), Bd: v.BitDepth(), Data: data}, in})
+			}
+			recs[g] = out
+		}(g)
+	}
+	close(start)
+	wg.Wait()
+	for g := range recs {
+		w := s.ws[g%len(s.ws)]
+		for _, r := range recs[g] {
+			w.Views = nil
+			w.tid++
+			w.Traces++
+			w.emit(&Event{Op: "Reset", Res: "ok", Cnt: -1, Allocs: -1})
+			w.emitObserved(&Event{Op: "Alloc", Args: []int{r.c, r.k, r.k}, Ty: "int32", Kind: "int32", Res: "ok", Cnt: -1, Allocs: -1}, []ViewObs{r.atAl})
+			end, _ := r.v.Data()
+			after := r.atAl
+			after.Data = end
+			w.emitObserved(&Event{Op: "Write", Args: []int{1}, Ty: "int32", In: r.stamp, Res: "ok", Cnt: r.k, Allocs: -1}, []ViewObs{after})
+		}
+	}
 }
 
 func init() {
